@@ -11,10 +11,24 @@ def specSnpsOutput (hard : Bool) (ref : List Nat) (recs : List (String × List N
 def recsOf (c : Case) : List (String × List Nat) :=
   (c.list "names").zip ((c.list "seqs").map strBytes)
 
+/-- aggregate table from the specification's rows: each distinct SNP once, frequency = rows containing it / rows -/
+def specSnpsAggregate (hard : Bool) (thrNum thrDen : Nat) (ref : List Nat) (recs : List (String × List Nat)) : String :=
+  let rows := recs.map fun r => specSnps hard ref r.2
+  let total := rows.length
+  let distinct := (rows.flatMap id).eraseDups
+  let counted := distinct.map fun s => (s, (rows.filter fun row => row.contains s).length)
+  let sorted := sortStable snpLt counted
+  "SNP,frequency\n" ++ String.join ((sorted.filter fun e => e.2 * thrDen ≥ thrNum * total).map fun e =>
+    fmtSnp e.1 ++ "," ++ fmt9 e.2 total ++ "\n")
+
 def runC03 (c : Case) : Verdict :=
   let hard := c.bool "hard"
   let ref := c.bytes "ref"
   let recs := recsOf c
+  if c.bool "agg" then
+    let thrd := if c.nat "thrd" == 0 then 1 else c.nat "thrd"
+    functional (c.get "go") (snpsAggregate hard (c.nat "thrn") thrd ref recs) (specSnpsAggregate hard (c.nat "thrn") thrd ref recs)
+  else
   functional (c.get "go") (snpsOutput hard ref recs) (specSnpsOutput hard ref recs)
 
 end Gofasta.Driver
